@@ -67,6 +67,11 @@ func VerifC17Relay() {
 	case 3:
 		cl.closeErr = e
 	}
+	if verifnd.Thorough() && site != 3 {
+		// thorough: a second fault - closing the client connection fails as well, with any shape
+		k2 := verifnd.Choose("close-kind", 11)
+		cl.closeErr = verifErr(k2, "close")
+	}
 	var wg sync.WaitGroup
 	wg.Add(1)
 	stats := &tunnelStats{proxyStats: getProxyStats()}
